@@ -33,27 +33,27 @@ func init() {
 }
 
 type qOp struct {
-	Task    int    `json:"task"`
-	Kind    string `json:"op"`
-	Arg     int    `json:"arg,omitempty"` // element for puts, timeout ms for timed get
-	Ret     int    `json:"ret"`           // element returned (0 = nil) / 1,0 for bool
-	CB      []int  `json:"cb,omitempty"`  // elements handed to Failed/Overflowed during this op
-	CBKind  string `json:"cbkind,omitempty"`
-	Call    int64  `json:"call"`
-	Return  int64  `json:"return"` // 0 = pending at end of run
-	CallMs  int64  `json:"-"`
-	RetMs   int64  `json:"-"`
-	Phase   string `json:"phase,omitempty"`
+	Task   int    `json:"task"`
+	Kind   string `json:"op"`
+	Arg    int    `json:"arg,omitempty"` // element for puts, timeout ms for timed get
+	Ret    int    `json:"ret"`           // element returned (0 = nil) / 1,0 for bool
+	CB     []int  `json:"cb,omitempty"`  // elements handed to Failed/Overflowed during this op
+	CBKind string `json:"cbkind,omitempty"`
+	Call   int64  `json:"call"`
+	Return int64  `json:"return"` // 0 = pending at end of run
+	CallMs int64  `json:"-"`
+	RetMs  int64  `json:"-"`
+	Phase  string `json:"phase,omitempty"`
 }
 
 type c11Data struct {
-	Double bool   `json:"double"`
-	Cap1   int    `json:"cap1"`
-	Cap2   int    `json:"cap2"`
-	Ops    []*qOp `json:"ops"`
-	cur    map[int]*qOp
-	Stranded string `json:"stranded,omitempty"`
-	FinalSize int `json:"final_size"`
+	Double    bool   `json:"double"`
+	Cap1      int    `json:"cap1"`
+	Cap2      int    `json:"cap2"`
+	Ops       []*qOp `json:"ops"`
+	cur       map[int]*qOp
+	Stranded  string `json:"stranded,omitempty"`
+	FinalSize int    `json:"final_size"`
 }
 
 //go:norace
